@@ -49,7 +49,13 @@ def curated() -> List[Any]:
             ("sarray", ("sarray", BOOL, 3), 2), ("sarray", ("darray", U16), 2), ("darray", ("sarray", U16, 2)), ("darray", ADDR),
             ("darray", tup(STR, STR)), tup(tup(STR, U8), tup(U8, STR)), ("sarray", tup(U8, U16), 3), tup(("sarray", STR, 2), U8, ("darray", BOOL)),
             ntup(U64, STR, BOOL), ntup(ADDR, ("darray", U8)), ("darray", ntup(U8, STR)), tup(ntup(BOOL, BOOL), STR), tup(), ("darray", tup()),
-            tup(BYTE, ("sarray", BYTE, 4), ("darray", BYTE)), tup(U32, U32, U32, U32, STR), ("sarray", ("sarray", U8, 2), 2)]
+            tup(BYTE, ("sarray", BYTE, 4), ("darray", BYTE)), tup(U32, U32, U32, U32, STR), ("sarray", ("sarray", U8, 2), 2),
+            # a static aggregate as the LAST member, behind a static member, in a tuple that also has a dynamic member
+            tup(STR, U8, ("sarray", BYTE, 2)), tup(STR, U8, ADDR), tup(STR, U16, ("sarray", U16, 2)), tup(U8, STR, U8, tup(U8, U8)),
+            ntup(STR, U8, ADDR), tup(("darray", U8), BOOL, ("sarray", BOOL, 3)), tup(STR, STR, U64, ("sarray", U64, 2)),
+            # members of exactly / around 256 bytes (one-byte immediates of extract / substring)
+            tup(("sarray", U64, 32), U8), tup(U8, ("sarray", U64, 32), U8), tup(("sarray", ADDR, 8), STR), ntup(("sarray", U64, 32), U16),
+            tup(("sarray", U64, 31), ("sarray", U64, 33), U8), tup(U8, ("sarray", U32, 64))]
     return _dedup(out)
 
 
